@@ -13,6 +13,13 @@ cxx = False
 fixed_lines = 1
 link_extra = ("-Wl,--wrap=malloc",)
 rule = ("scripts = 'm frags <hex>,<hex>,..' (every fragment its own exact-size malloc block) followed by message ops; "
+        "stream 1b (exhaustive) = every byte string over {20,0a,5c,27,23,61} (comment end, backslash, quote) up to length 3 x EVERY "
+        "composition x up to 2 empty fragments x {tok with 8 (tok,com,esc) sets, argv/args with white-space, newline and "
+        "backslash separator, dhash}; long generated messages (1..4000 bytes, thorough up to 150000) contiguous and cut into "
+        "parts of 1/7/100/256/300/900 bytes with empty parts through mpt_stream_append on a buffered stream (no encoder / COBS; "
+        "also into a message started behind a flushed one: queue offset > 0, remainders 136..159 and up to 700 bytes) and "
+        "through mpt::encode_array::push(message) (COBS, COBS/ZPE; 1..40000 bytes, thorough 150000; every cut of short texts "
+        "with zero pairs); the NULL-argument guards; "
         "stream 1 (exhaustive) = every byte string over {20,61,00,22,23} up to length 3 x EVERY composition "
         "into fragments x every insertion of up to 2 empty fragments (thorough: also length 4 x every composition x at most "
         "1 empty fragment) x {len; chr/rchr of each letter; str/rstr/fcn/rfcn "
@@ -38,9 +45,15 @@ assumptions = [
     "mpt_memcpy is called with at least one source and one target fragment (with none it returns 0 for every length)",
 ]
 trusted = ["hand-written model MptModel/Impl/Message.lean tied to mptcore/message/*.c, array/array_message.c, event/dispatch_hash.c (up to the "
-           "handler lookup) and mptio/stream/stream_append.c by harness/drv_message.c",
-           "the character-level rules of mpt_memtok/mpt_message_argv (Spec/Flat.lean tokStep, argv) are shared by spec and model; "
-           "their agreement with the C code on one fragment is correspondence evidence"]
+           "handler lookup), mptio/stream/stream_append.c by harness/drv_message.c and mpt++/array.cpp encode_array::push(message) "
+           "by harness/drvxx_message.cpp",
+           "mpt_memtok and nextSpace (message_argv.c) are modelled as their own byte loops with the C code's fragment-advance paths "
+           "and PROVED equal to the spec's one-pass scan; the per-character rules themselves (Spec/Flat.lean tokStep) are read off "
+           "the C code, their agreement on one fragment is correspondence evidence",
+           "the push functions below the fragment walkers (mpt_stream_push, mpt_queue_push, mpt_array_push and the encoders) are "
+           "modelled as 'takes 1..n of the n bytes offered' (any schedule); that the bytes taken arrive unchanged is tied by the "
+           "long-message runs (digest of what reaches the file / the decoded array content), not modelled",
+           "harness: plain COBS decoder, FNV-1a digest and the byte generator of harness/drv_biggen.h (same functions in Driver/Message.lean)"]
 
 ALPHA = [0x20, 0x61, 0x00, 0x22, 0x23]
 SEPS = ["00", "20", "61", "23", "22"]
